@@ -14,6 +14,18 @@ CLAIMED = {
          "Exploration: every field of every generated row is read back through the public accessors and compared with the model (boundary-length strings, surrogates, escapes, references, 126/127-item arrays, any matrix shape); compilation is repeated and compared byte for byte; the dictionary is loaded at buffer offsets 0..3 and all observations (fields, matrix, analyses) must agree. No absence claim.",
          "Trusts the model's reference resolution (first matching row for inline references) and the CSV/matrix renderer. Misaligned reads that abort the process are reported through the crash-signal handler.",
          "DESIGN.md section 4, C05"),
+ "C02": ("property-based testing (proptest): reference Bellman-Ford in i64 over the lattice's own candidate set (read through the verif hook), costs taken from the generating model",
+         "Exploration: for generated lexicons/matrices (negative and extreme costs, homographs, overlaps, user dictionaries, inhibited pairs, all OOV stacks) the returned mode-C path must cost exactly the reference optimum, every lattice node's stored cumulative cost must equal the reference shortest distance, and every morpheme's total_cost must equal the prefix sum recomputed from the CSV parameters and matrix text. No absence claim.",
+         "Trusts the hook accessors (read-only copies of lattice fields) and the model matrix/CSV renderer. Candidate generation itself is judged by C04/C13; i32 overflow (F7) is outside the generated domain (texts <= 200 characters).",
+         "DESIGN.md section 4, C02"),
+ "C07": ("property-based testing (proptest): reference normaliser / collapser / yomigana remover written from the statement; metamorphic context-independence relation; stride/complete sweep over all Unicode scalar values",
+         "Exploration: plugin output through the public trait is compared with an independent reference for generated rewrite tables (prefix keys, exempt characters) and texts that exercise both the optimised and the general path; norm(x|y) = norm(x)|norm(y) is checked model-free; prolonged-sound-mark and yomigana settings are generated likewise; every scalar value alone with the shipped table (quick: every 16th, thorough: all 1,112,064). No absence claim.",
+         "Trusts the unicode-normalization crate, Rust's to_lowercase/is_uppercase and the reference implementations in harness/src/model/norm.rs. Title-case letters: both readings accepted.",
+         "DESIGN.md section 4, C07"),
+ "C08": ("property-based testing (proptest): model-based edit histories against a tracker model of the offset map; code-point offsets recomputed from the original string",
+         "Exploration: 1-4 batches of sorted non-overlapping replacements through all four editor entry points are applied to the real InputBuffer and to a tracker model; after every batch and after build() every mapping accessor is compared for every character boundary and every boundary range; begin_c/end_c of every morpheme of generated analyses are recomputed from the original text. No absence claim.",
+         "Reads 'unreplaced character maps to itself' as start-to-own-start with position 0 anchored to 0. Which end interior positions of a replaced span map to is not constrained (the statement does not say).",
+         "DESIGN.md section 4, C08"),
  "C03": ("property-based testing (proptest) + enumerated length-boundary family; panic/overflow/debug-assert monitors under catch_unwind; reference normaliser for the success clause",
          "Exploration: generated dictionaries x configurations x texts (incl. NUL, controls, unassigned, astral, combining, expanders) x modes x field subsets, every accessor called with debug assertions and overflow checks on; inputs on both sides of the 49,149 / 65,535 byte limits are enumerated for a fixed fallback configuration. No absence claim.",
          "Trusts the unicode-normalization crate (reference normalised length), proptest, and that debug assertions + overflow checks + catch_unwind make out-of-range accesses visible (get_unchecked reads are additionally covered by the ASan fuzz target when built). Known finding F7 is outside the generated domain.",
